@@ -239,6 +239,10 @@ class DictRoot:
     def __init__(self, tree, name="dict"):
         self.tree = tree
         self.name = name
+        try:
+            V.cur().ghost.setdefault("dict_roots", []).append(self)  # every dict object of the path (pointwise loop rule: who was written?)
+        except RuntimeError:
+            pass
         self.writes = 0
         self.stored = False
         self.handles = []  # live handles below the root (so that overwriting an entry detaches the handles into it)
@@ -374,10 +378,35 @@ class SymDict:
     def __bool__(self):
         return V.cur().branch(NE(self.tree()))
 
+    def __delitem__(self, key):
+        ctx = V.cur()
+        if not is_strlike(key):
+            raise RaiseSig(KeyError("<non-string key>"))
+        if not ctx.branch(self.present(key)):
+            raise RaiseSig(KeyError("<key>"))
+        self.remove(ctx, key)
+
     def __eq__(self, other):
         return self is other
 
     __hash__ = object.__hash__
+
+
+class KeySubset:
+    """The list `[key for key in d if cond(key)]`: a snapshot of the keys of d (state t0 when the list was built) that satisfy phi
+    (a z3 Bool over the bound string `var`)."""
+
+    _pyvc_value = True
+
+    def __init__(self, src, t0, var, phi):
+        self.src, self.t0, self.var, self.phi = src, t0, var, phi
+
+    def member(self, e):
+        e = sterm(e)
+        return z3.And(present_t(self.t0, e), z3.substitute(self.phi, (self.var, e)))
+
+    def __repr__(self):
+        return f"KeySubset({self.src!r}: {self.phi})"
 
 
 class ItemsMap:
@@ -666,6 +695,99 @@ def install(reg):
     if not hasattr(reg, "iter_models"):
         reg.iter_models = {}
     reg.iter_models[SymDict] = iter_dict
+
+    # ---- [key for key in d if cond(key)]  and  `for key in <that list>: body`  (pointwise loop rule)
+    def comp_dict(interp, node, env, d):
+        from ..interp import Env
+        gen = node.generators[0]
+        if not isinstance(node, (ast.ListComp, ast.GeneratorExp)) or not isinstance(gen.target, ast.Name) \
+                or not (isinstance(node.elt, ast.Name) and node.elt.id == gen.target.id):
+            return NotImplemented
+        ctx = interp.ctx
+        d.check_live(ctx)
+        var = z3.String(ctx.fresh_name("key!bound"))
+        env2 = Env(env.globs, env)
+        env2.vars[gen.target.id] = Sym(var)
+        n_dec = len(ctx.decisions)
+        conds = []
+        for c in gen.ifs:
+            v = interp.eval(c, env2)
+            if isinstance(v, bool):
+                v = Sym(z3.BoolVal(v))
+            if not (isinstance(v, Sym) and v.is_bool):
+                raise OutOfSubset("comprehension condition over dict keys is not a boolean term")
+            conds.append(v.t)
+        if len(ctx.decisions) != n_dec:
+            raise OutOfSubset("comprehension condition over dict keys forks the path")
+        return KeySubset(d, d.tree(), var, z3.And(*conds) if conds else z3.BoolVal(True))
+
+    if not hasattr(reg, "comp_models"):
+        reg.comp_models = {}
+    reg.comp_models[SymDict] = comp_dict
+
+    def loop_key_subset(interp, node, env, ks):
+        """Pointwise loop rule: the body, run for ONE generic member key from an arbitrary intermediate state that agrees with the
+        pre-loop state at that key, must touch only the entry of its own key (obligation) - then the loop's total effect is the
+        per-key effect applied to every member.  Recognised per-key effects: the entry is removed / nothing changes."""
+        from ..interp import BreakSig, ContinueSig
+        ctx = interp.ctx
+        src = ks.src
+        root = src.root
+        if src.path or not isinstance(node.target, ast.Name):
+            raise OutOfSubset("pointwise loop over the keys of a nested dict handle")
+        if root.tree.get_id() != ks.t0.get_id():
+            raise OutOfSubset("dict changed between building the key list and the loop")
+        t0 = ks.t0
+        memo = reg.__dict__.setdefault("_pointwise_effects", {})
+        lid = (ctx.frames[-1] if ctx.frames else "?", node.lineno)
+        if ctx.branch(ctx.fresh("loop_has_a_member_key", "bool").t):
+            g = fresh_str(ctx, "member_key")
+            ctx.assume(ks.member(g.t))
+            t_mid = z3.Const(ctx.fresh_name("tree_mid"), TREE)
+            ctx.assume(z3.And(KF(t_mid)[g.t] == KF(t0)[g.t], LF(t_mid)[g.t] == LF(t0)[g.t], CF(t_mid)[g.t] == CF(t0)[g.t]))
+            root.tree = t_mid
+            roots = list(ctx.ghost.get("dict_roots", []))
+            before = {id(r): r.tree.get_id() for r in roots}
+            interp.assign(node.target, g, env)
+            try:
+                interp.exec_block(node.body, env)
+            except ContinueSig:
+                pass
+            except BreakSig:
+                raise OutOfSubset("break inside a pointwise loop over dict keys")
+            changed = [r for r in roots if r.tree.get_id() != before[id(r)]] + [r for r in ctx.ghost.get("dict_roots", []) if id(r) not in before and r.stored]
+            if any(r is not root for r in changed):
+                raise OutOfSubset("pointwise loop over dict keys writes another dict")
+            effect = "none"
+            if changed:
+                post = root.tree
+                gt = g.t
+                only = z3.And(KF(post) == z3.Store(KF(t_mid), gt, KF(post)[gt]), LF(post) == z3.Store(LF(t_mid), gt, LF(post)[gt]),
+                              CF(post) == z3.Store(CF(t_mid), gt, CF(post)[gt]))
+                ctx.prove(f"loop@{lid[0]}:over-dict-keys:body-touches-only-the-entry-of-its-own-key", only, kind="loop-pointwise")
+                if ctx.entails(z3.Not(present_t(post, gt))):
+                    effect = "remove"
+                else:
+                    raise OutOfSubset("per-key effect of a loop over dict keys is neither 'remove the key' nor 'no change'")
+            memo[lid] = effect
+            raise PathEnd("generic iteration of a pointwise loop verified")
+        effect = memo.get(lid)
+        if effect is None:
+            raise OutOfSubset("pointwise loop: per-key effect unknown on the exit path")
+        if effect == "remove":
+            if root.handles:
+                raise OutOfSubset("pointwise removal from a dict with live handles into its sections")
+            e = z3.String("e!lam")
+            t_fin = z3.Const(ctx.fresh_name("tree"), TREE)
+            ctx.assume(z3.And(KF(t_fin) == z3.Lambda([e], z3.If(ks.member(e), z3.IntVal(0), KF(t0)[e])), LF(t_fin) == LF(t0), CF(t_fin) == CF(t0)))
+            root.tree = t_fin
+            root.writes += 1
+        interp.exec_block(node.orelse, env)
+        return True
+
+    if not hasattr(reg, "loop_models"):
+        reg.loop_models = {}
+    reg.loop_models[KeySubset] = loop_key_subset
 
     def m_reversed(interp, xs):
         if isinstance(xs, (list, tuple)):
